@@ -501,8 +501,9 @@ func c15Sweep(c *core.Ctx, k *core.Case) {
 
 func init() {
 	p := &core.Property{
-		ID:   "C15",
-		Rule: "well-formed QoS rule lists (operations 1–6, 0–15 packet filters, all 18 component types, flow labels over the full 20 bits) and flow-description lists (operations 1–3, 0–63 parameters of the 7 kinds): serialise = reference bytes, parse(serialise(x)) = x; lists in which one component type / parameter identifier is replaced by an undefined one must be rejected; every byte string of length <= 2 (thorough 3) and mutated serialisations for totality. Non-trivial = list with at least one filter/parameter, or a mutated string; distinct by generator seed / bytes.",
+		ID:         "C15",
+		Interleave: []string{"rules-roundtrip", "descs-roundtrip", "unknown-id", "total"},
+		Rule:       "well-formed QoS rule lists (operations 1–6, 0–15 packet filters, all 18 component types, flow labels over the full 20 bits) and flow-description lists (operations 1–3, 0–63 parameters of the 7 kinds): serialise = reference bytes, parse(serialise(x)) = x; lists in which one component type / parameter identifier is replaced by an undefined one must be rejected; every byte string of length <= 2 (thorough 3) and mutated serialisations for totality. Non-trivial = list with at least one filter/parameter, or a mutated string; distinct by generator seed / bytes.",
 		Assumptions: []string{
 			"reference (de)serialiser from TS 24.501 9.11.4.12 / 9.11.4.13; the precedence and QFI octets of a 'delete existing QoS rule' are taken as the library emits them",
 			"a trailing fragment dropped at end of input is 'a value', not a violation",
